@@ -148,6 +148,7 @@ Proof.
   - rewrite Hst. apply (i_tape _ _ _ I).
   - rewrite Hst. apply (i_csc _ _ _ I).
   - rewrite Hst. apply (i_csb _ _ _ I).
+  - rewrite Hst. apply (i_cse _ _ _ I).
   - rewrite Hst. apply (i_clk _ _ _ I).
   - rewrite Hst. intros e en Hn. destruct (i_clke _ _ _ I e en Hn) as (A & B). split; [exact A|]. intros sd. rewrite Hgx. apply B.
   - rewrite Hst. apply (i_roots _ _ _ I).
